@@ -1072,6 +1072,39 @@ def save_dispatch_forwards(fn):
     return True
 
 
+def saver_ctor_calls(fns, ctor_force_default):
+    """every call of a registered file class inside a Trajectory.save_* method, whatever branch it sits in:
+    [(saver:line, farg)] with the force_overwrite it receives (arguments resolved by parameter name)"""
+    out = []
+    for name in sorted(fns):
+        if not name.startswith("save_"):
+            continue
+        for n in ast.walk(fns[name]):
+            if not (isinstance(n, ast.Call) and dotted(n.func) in CLASS_BY_NAME):
+                continue
+            key = CLASS_BY_NAME[dotted(n.func)]
+            label = "%s:%s:%d" % (name, key, n.lineno - fns[name].lineno)
+            try:
+                actual, sig = _ctor_call_args(n, key)
+            except Outside:
+                out.append((label, "(FLit true)"))
+                continue
+            m = actual.get("mode")
+            if m is None or (isinstance(m, ast.Constant) and m.value in ("r", b"r")):
+                continue                                   # a read-mode call
+            f = actual.get("force_overwrite")
+            if f is None:
+                d = sig["force_default"]
+                out.append((label, "(FLit %s)" % cbool(True if d is None else bool(d))))
+            elif isinstance(f, ast.Name) and f.id == "force_overwrite":
+                out.append((label, "FPass"))
+            elif isinstance(f, ast.Constant) and isinstance(f.value, bool):
+                out.append((label, "(FLit %s)" % cbool(f.value)))
+            else:
+                out.append((label, "(FLit true)"))         # computed: assume the worst
+    return out
+
+
 def loader_table(repo):
     """extension -> (file, function name) from the @FormatRegistry.register_loader decorations"""
     tab = {}
@@ -1454,6 +1487,11 @@ def build_gen(repo):
         fwd = not (" modifies " in str(e) or " does not end in " in str(e) or " reassigns " in str(e))
     lines.append("(* Trajectory.save looks the saver up by extension and calls it as saver(filename, **kwargs), kwargs untouched *)")
     lines.append("Definition save_dispatch_forwards : bool := %s." % cbool(fwd))
+    calls = saver_ctor_calls(fns, ctor_force_default)
+    info["saver_ctor_calls"] = {l: f for l, f in calls}
+    lines.append("(* every write-mode call of a file class inside a Trajectory.save_* method (saver:class:line offset) with the\n"
+                 "   force_overwrite it is given, whatever branch it sits in *)")
+    lines.append("Definition saver_ctor_calls : list (string * farg) :=\n  [%s]." % ";\n   ".join('("%s", %s)' % c for c in calls))
     lines.append("(* savers that take a mode parameter, with mode='a' *)")
     ap_rows = []
     for name in saver_names:
@@ -1481,6 +1519,7 @@ def build_gen(repo):
                  "Proof. vm_compute. reflexivity. Qed.")
     lines.append("Lemma all_ctors_badmode : forallb (fun x => check_badmode (snd x)) ctors = true. "
                  "Proof. vm_compute. reflexivity. Qed.")
+    lines.append("Lemma all_saver_calls_forward : check_saver_calls saver_ctor_calls = true. Proof. vm_compute. reflexivity. Qed.")
     lines.append("Lemma save_dispatch_checked : save_dispatch_forwards = true. Proof. reflexivity. Qed.")
     lines.append("Lemma all_default_modes_read : all_default_read (map snd default_modes) = true. "
                  "Proof. vm_compute. reflexivity. Qed.")
@@ -1532,6 +1571,7 @@ SINGLE_FRAME = {"rst7", "ncrst"}
 NOT_MODELLED_ARGS = {("dtr", "slash"), ("nc", "pathlike"), ("netcdf", "pathlike"), ("ncdf", "pathlike")}
 READ_OPS = ["load", "load_stride", "load_atoms", "load_frame", "iterload", "open_read", "open_force_true", "len_seek", "load_topology",
             "fmt_loader", "write_on_read_handle", "with_read_partial", "load_list", "iterload_opts", "seek_back"]
+TRAJ_VARIANTS = [{"cell": False}, {"time": False}, {"bonds": True}, {"cell": False, "time": False, "bonds": True}]
 BAD_MODES = ["x", "rw", "wb", "w+", "", "R", "W", "r+", "ab"]
 
 
@@ -1607,6 +1647,18 @@ def build_cases(ctx):
             for force in (False, True):
                 cases.append({"kind": "mode", "ext": "h5", "entry": "save_mode", "mode": mode, "pre": pre, "force": force})
     cases += series_cases(ctx)
+    # the branches inside Trajectory.save_* depend on what the trajectory carries: every extension x {no unit cell, default
+    # time, bonded topology, none of them} x {1, 3 frames} x pre-existing content, force_overwrite=False (and True on a
+    # fresh path / where the saver accepts such a trajectory)
+    for ext in PROPERTY_EXTS:
+        for traj in TRAJ_VARIANTS:
+            for frames in ((1,) if ext in SINGLE_FRAME and quick else (1, 3)):
+                for pre in ((1, 3) if quick else (0, 1, 2, 3, 4)):
+                    cases.append({"kind": "write", "ext": ext, "entry": "save", "pre": pre, "pre_at": 0, "frames": frames,
+                                  "force": False, "traj": traj})
+                if not quick:
+                    cases.append({"kind": "write", "ext": ext, "entry": "save", "pre": 1, "pre_at": 0, "frames": frames,
+                                  "force": True, "traj": traj})
     if not quick:
         # a random extra stream over the whole grid (repeats catch order/time dependent behaviour)
         for _ in range(400):
@@ -1700,8 +1752,9 @@ def run_cases(ctx, cases):
     run_series_cases(ctx, series, res.get("series", []))
     # ---------------- the property itself, on the implementation (oracle)
     for c, o in zip(writes, res["cases"]):
-        ctx.count(c, nontrivial=c["pre"] != 0, bucket="%s/%s/force=%s/%s" % (
-            c["entry"], "pre" if c["pre"] else "fresh", c["force"], c.get("arg", "str")))
+        ctx.count(c, nontrivial=c["pre"] != 0, bucket="%s/%s/force=%s/%s%s" % (
+            c["entry"], "pre" if c["pre"] else "fresh", c["force"], c.get("arg", "str"),
+            "/traj:" + "+".join(sorted(k if v else "no-" + k for k, v in c["traj"].items())) if c.get("traj") else ""))
         st = o["status"]
         tags = {"ext": c["ext"], "entry": c["entry"], "force": c["force"], "pre": c["pre"], "arg": c.get("arg", "str")}
         if o.get("stray_cwd"):
@@ -1717,7 +1770,9 @@ def run_cases(ctx, cases):
             elif is_target(c, c["pre_at"]) and o["raised"] is None and c.get("arg") != "tilde":
                 ctx.fail("%s: force_overwrite=False at an existing target did not raise" % c["ext"], c,
                          observed=o, expected="an error", tags=dict(tags, kind="no_error"))
-        if c["force"]:
+        if c["force"] and not (c.get("traj") and o["raised"] is not None and o.get("ref_raised") is not None):
+            # (a saver that refuses this kind of trajectory after it has opened, i.e. truncated, its target leaves an
+            # empty or partial NEW file: overwriting was requested, nothing of the old content is retained)
             for i, s in enumerate(st):
                 if s == "Other":
                     ctx.fail("%s: force_overwrite=True left something that is neither the old nor the new content"
@@ -1764,6 +1819,9 @@ def run_cases(ctx, cases):
         if c.get("arg") == "tilde":
             return True     # mdtraj does not expand "~": the spelling names another (non-existing) path; only the
                             # oracle applies: the file the shell would mean must not be touched without force
+        if c.get("traj") and o["raised"] is not None and (c["pre"] == 0 or c["force"]):
+            return True     # a saver that does not accept such a trajectory (no unit cell for lammpstrj/dtr/...): what it
+                            # leaves behind when it gives up half way is judged by the oracle, the model has no such raise
         if c.get("arg") == "symfile" and c["force"]:
             return True     # unlink+create replaces the link, open('w') writes through it: both replace fully
         return c.get("arg", "str") in ("path", "pathlike", "bytes", "slash", "tilde") and o["raised"] is not None \
